@@ -183,6 +183,8 @@ def run(ctx):
                 names = [r[0].a[1] if r else None for r in roots]
                 ctx.ob("E5.chain", "MultiSignature<C>::verify->%s" % s.callee[0], names == ["pk", "self", "msg"], "forwards (accumulated key, own signature, message) as pure projections: %s" % names, where=where(v, bb))
     K.check_core_forwarding(ctx, P, rule="E5.forward", methods=("verify", "multi_sig_verify"))
+    # the accumulated signature is checked under the tag its parts were signed under (per scheme trait)
+    K.check_core_table(ctx, P, methods=("sign", "verify", "multi_sig_verify"))
     from .posctl import run_posctl
 
     run_posctl(ctx, "E7.adapters", "adapters")
